@@ -388,7 +388,7 @@ pub fn bulk_strategy(max_len: usize, oor_share: u8) -> impl Strategy<Value = Bul
 }
 
 fn bins_index_strategy() -> impl Strategy<Value = BinsIndexCase> {
-    proptest::collection::vec((proptest::collection::vec(-5i64..6, 0..6), 0usize..8, 0u8..10), 1..4).prop_map(|axes| {
+    proptest::collection::vec((proptest::collection::vec(-5i64..6, 0..6), 0usize..8, 0u8..8), 1..4).prop_map(|axes| {
         let mut edges = vec![];
         let mut index = vec![];
         for (e, i, roll) in axes {
@@ -400,7 +400,7 @@ fn bins_index_strategy() -> impl Strategy<Value = BinsIndexCase> {
             let i = match roll {
                 0 => nb,
                 1 => nb + 1,
-                2 => usize::MAX,
+                2 => usize::MAX - (i % 6),
                 _ => {
                     if nb == 0 {
                         i
